@@ -163,11 +163,12 @@ example : C12Frame.TextFields [.text, .text, .text] [.ptr (.str false), .ptr (.s
 /-- FULL STATEMENT (does not hold): "a struct that Marshal accepts for a tuple column is given back by Unmarshal into
     the same struct type".  unmarshalTuple decodes every field into goType(elem) and then `Set`s the struct field:
     when the field's type is another documented type of the element (int32 for an int column, *big.Int for varint,
-    *inf.Dec for decimal) reflect.Value.Set panics.  `C02_tuple_text_roundtrip` is the part that holds (fields of type
+    *inf.Dec for decimal) the value cannot be assigned: an ERROR since the repair of KF-C05-18 (it was a
+    reflect.Value.Set panic before), still not the value Marshal was given.  `C02_tuple_text_roundtrip` is the part that holds (fields of type
     goType(elem) or a pointer to it).  = replay input `rt 4 tuple 1 int st 1 i int32 5 struct 1 k int32` -/
 theorem C02_cex_tuple_field_type :
     marshal 4 (.tuple [.int]) (.struct [.int .int32 false 5]) = .ok (some [0, 0, 0, 4, 0, 0, 0, 5]) ∧
-    unmarshal 4 (.tuple [.int]) (.struct [.int .int32 false]) (some [0, 0, 0, 4, 0, 0, 0, 5]) = .crash := by
+    unmarshal 4 (.tuple [.int]) (.struct [.int .int32 false]) (some [0, 0, 0, 4, 0, 0, 0, 5]) = .err := by
   have hk : marshalIntKind .int .int32 false 5 = some [0, 0, 0, 5] := by decide
   have h4 : encInt (toS 32 4) = [0, 0, 0, 4] := by decide
   have hd : decInt [0, 0, 0, 4] = 4 := by decide
